@@ -93,6 +93,16 @@ def gen_sub(rng, budget):
 
 
 def gen_dom(rng, nsub=None, budget=48):
+    if nsub is None and rng.random() < 0.12:
+        # template: a 2-axis regular grid + a sub-domain with array-valued dvol + a third one, in random order —
+        # the only constellation in which the non-uniform var path broadcasts a mean back over a multi-axis sub-domain
+        a = ["RG", [rng.randint(1, 3), rng.randint(2, 3)], [rng.choice(DYADIC_DIST), rng.choice(DYADIC_DIST)], rng.random() < 0.3]
+        b = rng.choice([["DOF", [rng.choice(DOF_W) for _ in range(rng.randint(1, 3))]], ["PSLM", rng.randint(0, 2)],
+                        ["GL", rng.randint(1, 2), 2], ["PS", ["RG", [rng.randint(2, 4)], [rng.choice(DYADIC_DIST)], True]]])
+        c, _ = gen_sub(rng, 3)
+        rec = [a, b, c]
+        rng.shuffle(rec)
+        return rec
     if nsub is None:
         nsub = rng.choice([0, 1, 1, 2, 2, 2, 3, 3, 3])
     rec, left = [], budget
